@@ -6,6 +6,7 @@ judged by `Upnp.C02.ok` (no raise; dropped => inert).  See design/C02.md."""
 from __future__ import annotations
 
 import asyncio
+import logging
 import re
 from datetime import datetime, timedelta
 from types import SimpleNamespace
@@ -234,7 +235,32 @@ class Env:
             asyncio.set_event_loop(None)
 
 
+class _Swallow(logging.Handler):
+    """formats every record (so that a bad format string / argument shows) and drops it"""
+
+    def emit(self, record):  # noqa: D102
+        record.getMessage()
+
+
 def run_recipe(ctx: Ctx, recipe: Dict[str, Any], cid: str) -> Case:
+    # the DEBUG-only branches of the receive path (`if _LOGGER.isEnabledFor(logging.DEBUG)` and the traffic logger) run in
+    # about half of the cases; the records are formatted and dropped
+    lg = logging.getLogger("async_upnp_client")
+    old_level, old_prop = lg.level, lg.propagate
+    handler = _Swallow()
+    if recipe.get("debug"):
+        lg.setLevel(logging.DEBUG)
+        lg.propagate = False
+        lg.addHandler(handler)
+    try:
+        return _run_recipe(ctx, recipe, cid)
+    finally:
+        lg.removeHandler(handler)
+        lg.setLevel(old_level)
+        lg.propagate = old_prop
+
+
+def _run_recipe(ctx: Ctx, recipe: Dict[str, Any], cid: str) -> Case:
     env = Env(recipe)
     lines = [env.cfg_line(recipe.get("target", ""))]
     tags = set()
@@ -273,6 +299,8 @@ def run_recipe(ctx: Ctx, recipe: Dict[str, Any], cid: str) -> Case:
                          f"next={'N' if nx is None else us(nx)} before={lst(ts(k) for k in before)} "
                          f"after={lst(ts(k) for k in sorted(tracker.devices))} cbs={lst(env.cbs)}")
             tags.add("ep:" + ep)
+            if recipe.get("debug"):
+                tags.add("log:debug")
             if tag:
                 tags.add("fam:" + tag)
             if raised != "-":
@@ -510,10 +538,45 @@ HEADER_NAMES = ["HOST", "CACHE-CONTROL", "LOCATION", "NT", "NTS", "SERVER", "USN
 HOSTILE = ["", "abc", "-1", "9" * 25, "9" * 4301, "1.5", "0x10", "1e9", "http://[", "[::", "::", "%", "a:b:c", "\x0b", "1 2", "١٢", "é", "\t7"]
 
 
+_SOURCE_NAMES: Optional[List[str]] = None
+
+
+def source_header_names() -> List[str]:
+    """every header name the library's SSDP modules look up (`get_lower("x")`, `get("x")`, `headers["x"]`), read from the
+    source under test with `ast`: a vendor header parsed by a future change is attacked without anybody listing it"""
+    global _SOURCE_NAMES
+    if _SOURCE_NAMES is None:
+        import ast
+
+        from vk.core import REPO
+
+        names = set()
+        for f in ("ssdp.py", "advertisement.py", "search.py", "ssdp_listener.py", "server.py"):
+            try:
+                mod = ast.parse((REPO / "async_upnp_client" / f).read_text())
+            except (OSError, SyntaxError):
+                continue
+            for n in ast.walk(mod):
+                c = None
+                if isinstance(n, ast.Call) and isinstance(n.func, ast.Attribute) and n.func.attr in ("get_lower", "get", "del_lower", "pop") and n.args:
+                    c = n.args[0]
+                elif isinstance(n, ast.Subscript):
+                    c = n.slice
+                if isinstance(c, ast.Constant) and isinstance(c.value, str) and c.value and not c.value.startswith("_") \
+                        and all(ch in TOKEN_CHARS for ch in c.value):
+                    names.add(c.value.upper())
+        _SOURCE_NAMES = sorted(names)
+    return _SOURCE_NAMES
+
+
+TOKEN_CHARS = "!#$%&'*+-.^_`|~0123456789abcdefghijklmnopqrstuvwxyzABCDEFGHIJKLMNOPQRSTUVWXYZ"
+
+
 def hostile(rng) -> bytes:
     """a valid message in which ONE known header (present or added) carries a hostile value: any int()/float()/URL
     parsing a future change applies to a header value on the receive path meets text it cannot parse"""
-    name, val = rng.choice(HEADER_NAMES), rng.choice(HOSTILE)
+    pool = HEADER_NAMES + [n for n in source_header_names() if n not in HEADER_NAMES]
+    name, val = (rng.choice(pool) if rng.random() < 0.85 else "X-" + "".join(rng.choice("ABCDEFGHIJ-") for _ in range(6))), rng.choice(HOSTILE)
     udn, typ, loc = rng.choice(UDNS), rng.choice(TYPES), rng.choice(LOCS)
     c = rng.randrange(4)
     if c == 0:
@@ -575,7 +638,7 @@ def gen_part(ctx: Ctx, kind: str, n: int, prefix: str) -> List[Case]:
     cases: List[Case] = []
 
     def add(ops, target="", cbm=None):
-        rec = {"ops": ops, "target": target, "cb": cbm or rng.choice(["sync", "async"])}
+        rec = {"ops": ops, "target": target, "cb": cbm or rng.choice(["sync", "async"]), "debug": rng.random() < 0.5}
         cases.append(run_recipe(ctx, rec, f"{prefix}{len(cases)}"))
 
     if kind == "targeted":
